@@ -65,6 +65,14 @@ def run_shard(shard, ctx):
         if shard["slice"][0] == 0:
             for pad, ai in ((0, 0), (4095, 1)):
                 run_case({"kind": "positive", "len": (4 << 20) + 1, "pad": pad, "order": [3, 2, 1, 0], "aad": ai}, ctx)
+        # ciphertext lengths (payload + padding + 4096-byte footer block) of n x 4 MiB + r: the 512-byte crypto footer straddles
+        # the boundary of a decrypt chunk for r = 1 .. 511
+        CH = 4 << 20
+        straddles = [(1, 1), (1, 100), (1, 511), (1, 512), (1, 513), (2, 5), (1, 4095), (1, 4096), (1, 4097)]
+        for n, (chunks, r) in enumerate(straddles):
+            if n % shard["slice"][1] == shard["slice"][0]:
+                run_case({"kind": "positive", "len": chunks * CH - 4096 + r - (n % 3), "pad": n % 3, "order": [0, 1, 2, 3], "aad": n % 3},
+                         ctx)
     elif kind == "extras":
         cases = []
         for t, vals in EXTRA_VALUES.items():
